@@ -164,7 +164,7 @@ func cmdCheck(args []string) {
 				transparent = append(transparent, fnName(fn)+" (closure, verified with its parent)")
 				continue
 			}
-			if !rootSet[fn] && w.contracts[fnName(fn)] == nil && w.transparentEligible(fn) {
+			if !rootSet[fn] && w.contracts[fnName(fn)] == nil && w.transparentEligible(fn) && !depCalled[fn] {
 				transparent = append(transparent, fnName(fn))
 				continue
 			}
@@ -173,6 +173,7 @@ func cmdCheck(args []string) {
 	}
 	results := map[string]*FnResult{}
 	frames := w.recoverFrames()
+	assumedElsewhere := map[string]string{}
 	// closure over the contracts relied upon
 	for round := 0; round < 8; round++ {
 		var todo []*ssa.Function
@@ -189,6 +190,10 @@ func cmdCheck(args []string) {
 			results[fnName(todo[i])] = r
 			for _, cal := range r.Callees {
 				if fn := w.fns[cal]; fn != nil && !inSet[fn] {
+					if ct := w.contracts[cal]; cfg.StopAtTagged && ct != nil && !hasProp(ct.Props, cfg.ID) {
+						assumedElsewhere[cal] = strings.Join(ct.Props, " ")
+						continue
+					}
 					inSet[fn] = true
 					if tagged[todo[i]] {
 						tagged[fn] = true // a contract the property's proof relies on
@@ -202,7 +207,13 @@ func cmdCheck(args []string) {
 	for changed {
 		changed = false
 		for fn := range tagged {
+			if results[fnName(fn)] == nil {
+				continue
+			}
 			for _, cal := range results[fnName(fn)].Callees {
+				if _, skip := assumedElsewhere[cal]; skip {
+					continue
+				}
 				if cf := w.fns[cal]; cf != nil && !tagged[cf] {
 					tagged[cf] = true
 					changed = true
@@ -497,6 +508,14 @@ func cmdCheck(args []string) {
 	// ---- evidence ----
 	var fnsUnder []map[string]interface{}
 	assumptions := map[string]bool{}
+	if len(assumedElsewhere) > 0 {
+		var l []string
+		for k, v := range assumedElsewhere {
+			l = append(l, k+" ["+v+"]")
+		}
+		sort.Strings(l)
+		assumptions[fmt.Sprintf("%d contracts relied upon do not list this property: they are assumed here and verified by the checks of the properties they list: %s", len(l), strings.Join(l, ", "))] = true
+	}
 	var unverified []string
 	hk, ht := 0, 0
 	nContract := 0
